@@ -100,6 +100,7 @@ type Exec struct {
 	nNoPanic int
 	closureVar map[types.Object]*FuncInfo
 	aliasHook  func(*State)
+	fnValueOfCall *Term
 	loopOrd    map[ast.Node]string
 	loopStack  [][]int
 	stmtsSeen, stmtsLowered, stmtsDropped int
@@ -1769,6 +1770,7 @@ func (x *Exec) runLoop(s *State, entry *State, node ast.Node, bodyNode ast.Node,
 		if enterBody != nil {
 			enterBody(b)
 		}
+		aliases(b)
 		o := x.execBlock(b, body, entry)
 		ends := append(o.normal, o.cont...)
 		ends = append(ends, o.brk...)
@@ -1814,6 +1816,7 @@ func (x *Exec) runLoop(s *State, entry *State, node ast.Node, bodyNode ast.Node,
 	if enterBody != nil {
 		enterBody(b)
 	}
+	aliases(b)
 	o := x.execBlock(b, body, entry)
 	ends := x.merge(append(o.normal, o.cont...))
 	for _, e := range ends {
